@@ -69,14 +69,20 @@ end tab
 
 /-! ## The `index` table -/
 
+/-- memdb lower-cases string index keys (node names, and the key of the index table itself);
+    ASCII in the harness -/
+def lc (s : String) : String := String.ofList (s.toList.map Char.toLower)
+
+/-- the index table: rows (Key, Value) whose primary index is the LOWER-CASED key — writing
+    `node.N1` replaces the row `node.n1` (and keeps the new spelling) -/
 abbrev Idx := List (String × Nat)
 
 def iget : Idx → String → Option Nat
   | [], _ => none
-  | (k', v) :: r, k => if k' = k then some v else iget r k
+  | (k', v) :: r, k => if lc k' = lc k then some v else iget r k
 
 /-- `tx.Insert(tableIndex, &IndexEntry{key, v})` -/
-def iset (t : Idx) (k : String) (v : Nat) : Idx := (k, v) :: t.filter (fun p => p.1 ≠ k)
+def iset (t : Idx) (k : String) (v : Nat) : Idx := (k, v) :: t.filter (fun p => lc p.1 ≠ lc k)
 
 /-- `indexUpdateMaxTxn` -/
 def imax (t : Idx) (k : String) (v : Nat) : Idx :=
@@ -95,6 +101,7 @@ structure KVal where
 deriving DecidableEq, Repr
 
 structure NodeVal where
+  name : String        -- the name as last written (the row key is its lower-case form)
   id   : String        -- node UUID, "" when the registration carries none
   addr : String
 deriving DecidableEq, Repr
@@ -102,11 +109,15 @@ deriving DecidableEq, Repr
 structure ChkVal where
   svcId  : String
   output : String
+  status : String      -- "passing" / "critical" / …
+
 deriving DecidableEq, Repr
 
 structure CfgVal where
   val    : String
   status : String      -- "" = the zero `structs.Status{}`
+  flag   : Bool := false   -- service-defaults: MutualTLSMode = permissive;
+                           -- mesh: AllowEnablingPermissiveMutualTLS; false for every other kind
 deriving DecidableEq, Repr
 
 structure CaVal where
@@ -135,6 +146,7 @@ structure State where
   nodes     : Tab String NodeVal := []                -- node name ↦ (node ID, address)
   svcs      : Tab (String × String) Nat := []         -- (node, service id) ↦ port
   chks      : Tab (String × String) ChkVal := []      -- (node, check id)
+  ksn       : List String := []                       -- kind-service-names, kind "typical"
   cfgs      : Tab (String × String) CfgVal := []      -- (kind, name)
   caConfig  : Cell CaVal := none
   roots     : Tab String RootVal := []
@@ -150,6 +162,9 @@ inductive Err
   | stale              -- txn verb: "... index is stale"
   | missingNode        -- ErrMissingNode
   | missingService     -- ErrMissingService
+  | cfgMtls            -- "cannot set MutualTLSMode=permissive because AllowEnablingPermissiveMutualTLS=false …"
+  | cfgGatewayClash    -- "cannot create a %q config entry with name %q, a %q config entry with that name already exists"
+  | cfgGraph           -- "discovery chain %q uses a protocol %q that does not permit advanced routing or splitting behavior"
   | nodeNameConflict   -- "Node name %s is reserved by node %s …" (ensureNoNodeWithSimilarNameTxn)
   | rootsActive        -- "there must be exactly one active CA"
   | missingRootId      -- ErrMissingCARootID
@@ -226,129 +241,202 @@ def kvDeleteCas (s : State) (i : Nat) (k : String) (cidx : Nat) : Out :=
   | none => ⟨s, .ok true⟩
   | some e => if e.modify ≠ cidx then ⟨s, .ok false⟩ else ⟨kvDelete s i k, .ok true⟩
 
-/-! ## Catalog rows (nodes with or without a node ID, typical services, checks)
+/-! ## Catalog rows (nodes with or without a node ID, typical services, checks) and the
+index-table entries every catalog write maintains
 
-Node rows are keyed by NAME (lower-cased in memdb; the harness uses lower-case names); the node
-ID is a second, unique index.  `ensureNodeCASTxn` compares the ModifyIndex of the row stored
-under the NAME of the request, whatever ID the request carries. -/
+Node rows are keyed by the LOWER-CASED name; the node ID is a second, unique index.
+`ensureNodeCASTxn` compares the ModifyIndex of the row stored under the NAME of the request,
+whatever ID the request carries.  Service and check rows are keyed by (lower-cased node, id);
+in the modelled universe a service's name is its ID and its kind is "typical". -/
 
-/-- `getNodeIDTxn`: the row carrying this node ID (the `uuid` index), with the name it is stored under -/
+/-- `peeredIndexEntryName(entry, "")` -/
+def peered (x : String) : String := "peer.~:" ++ x
+
+/-- `tx.Delete(tableIndex, entry)` -/
+def idel (t : Idx) (k : String) : Idx := t.filter (fun p => lc p.1 ≠ lc k)
+
+/-- `catalogUpdateNodesIndexes` -/
+def ixNodes (t : Idx) (i : Nat) : Idx := imax (imax t "nodes" i) (peered "nodes") i
+/-- `catalogUpdateNodeIndexes` (the name as given by the caller, not lower-cased) -/
+def ixNode (t : Idx) (raw : String) (i : Nat) : Idx := imax t (peered ("node." ++ raw)) i
+/-- `catalogUpdateServicesIndexes` -/
+def ixServices (t : Idx) (i : Nat) : Idx := imax (imax t "services" i) (peered "services") i
+/-- `catalogUpdateServiceIndexes` -/
+def ixService (t : Idx) (name : String) (i : Nat) : Idx := imax t (peered ("service." ++ name)) i
+/-- `catalogUpdateServiceKindIndexes` for kind "typical" -/
+def ixKind (t : Idx) (i : Nat) : Idx := imax (imax t "service_kind.typical" i) (peered "service_kind.typical") i
+/-- `catalogUpdateCheckIndexes` -/
+def ixChecks (t : Idx) (i : Nat) : Idx := imax (imax t "checks" i) (peered "checks") i
+/-- `updateAllServiceIndexesOfNode` -/
+def ixServicesOfNode (svcs : Tab (String × String) Nat) (t : Idx) (k : String) (i : Nat) : Idx :=
+  svcs.foldl (fun t p => if p.1.1 = k then ixKind (ixService t p.1.2 i) i else t) t
+
+/-- `getNodeIDTxn`: the row carrying this node ID (the `uuid` index), with the key it is stored under -/
 def nodeById (t : Tab String NodeVal) (id : String) : Option (String × Ver NodeVal) :=
   t.find? (fun p => p.2.val.id = id)
 
-/-- the Serf health check of a node exists and is not critical (the harness registers every
-    check as passing) — only then does a node defend its name -/
-def nodeHealthy (chks : Tab (String × String) ChkVal) (n : String) : Bool :=
-  (tget chks (n, "serfHealth")).isSome
-
-/-- `ensureNoNodeWithSimilarNameTxn(tx, node, allowClashWithoutID)`: `true` = "Node name … is
-    reserved by node …".  Names are unique keys, so the only candidate is the row under `n`. -/
-def nameConflict (nodes : Tab String NodeVal) (chks : Tab (String × String) ChkVal)
-    (n id : String) (allowClashWithoutID : Bool) : Bool :=
-  match tget nodes n with
-  | some e => decide (e.val.id ≠ id) && (decide (e.val.id ≠ "") || !allowClashWithoutID) && nodeHealthy chks n
+/-- the Serf health check of a node exists and is not critical — only then does a node defend
+    its name (`ensureNoNodeWithSimilarNameTxn`) -/
+def nodeHealthy (chks : Tab (String × String) ChkVal) (k : String) : Bool :=
+  match tget chks (k, "serfHealth") with
+  | some e => decide (e.val.status ≠ "critical")
   | none => false
 
-/-- the by-name tail of `ensureNodeTxn`: same content (ID and address) ⇒ untouched -/
-def nodeSetByName (s : State) (i : Nat) (n : String) (v : NodeVal) : State :=
-  match tget s.nodes n with
-  | some e => if e.val = v then s else { s with nodes := tput s.nodes n ⟨v, e.create, i⟩ }
-  | none => { s with nodes := tput s.nodes n ⟨v, i, i⟩ }
+/-- `ensureNoNodeWithSimilarNameTxn(tx, node, allowClashWithoutID)`: `true` = "Node name … is
+    reserved by node …".  Names are unique keys (case-insensitively), so the only candidate is
+    the row under the key `k`. -/
+def nameConflict (nodes : Tab String NodeVal) (chks : Tab (String × String) ChkVal)
+    (k id : String) (allowClashWithoutID : Bool) : Bool :=
+  match tget nodes k with
+  | some e => decide (e.val.id ≠ id) && (decide (e.val.id ≠ "") || !allowClashWithoutID) && nodeHealthy chks k
+  | none => false
 
-/-- `deleteNodeTxn`: cascades to the node's services and checks. -/
-def nodeDelete (s : State) (n : String) : State :=
-  match tget s.nodes n with
+/-- `Node.IsSame`: ID and address (the name is compared case-insensitively, i.e. by key) -/
+def sameNode (a b : NodeVal) : Bool := decide (a.id = b.id ∧ a.addr = b.addr)
+
+/-- `catalogInsertNode`: the row, the nodes / node.<name> entries and the entries of every
+    service registered on the node -/
+def nodeInsert (s : State) (i : Nat) (v : NodeVal) (create : Nat) : State :=
+  let k := lc v.name
+  { s with nodes := tput s.nodes k ⟨v, create, i⟩
+           idx := ixServicesOfNode s.svcs (ixNode (ixNodes s.idx i) v.name i) k i }
+
+/-- the by-name tail of `ensureNodeTxn`: same ID and address ⇒ untouched -/
+def nodeSetByName (s : State) (i : Nat) (v : NodeVal) : State :=
+  match tget s.nodes (lc v.name) with
+  | some e => if sameNode e.val v then s else nodeInsert s i v e.create
+  | none => nodeInsert s i v i
+
+/-- `deleteCheckTxn` -/
+def chkDelete (s : State) (i : Nat) (n id : String) : State :=
+  let k := lc n
+  match tget s.chks (k, id) with
+  | none => s
+  | some e =>
+    let ix := if e.val.svcId ≠ "" then ixKind (ixService s.idx e.val.svcId i) i
+              else ixServices (ixServicesOfNode s.svcs s.idx k i) i
+    { s with chks := tdel s.chks (k, id), idx := ixChecks ix i }
+
+/-- `deleteServiceTxn`: the bound checks go first (each through `deleteCheckTxn`), then the row;
+    when the last instance of the service name disappears its `service.<name>` entry is
+    garbage-collected, the extinction index is raised and the kind-service-name is cleaned up -/
+def svcDelete (s : State) (i : Nat) (n id : String) : State :=
+  let k := lc n
+  match tget s.svcs (k, id) with
   | none => s
   | some _ =>
-    { s with nodes := tdel s.nodes n
-             svcs := s.svcs.filter (fun p => p.1.1 ≠ n)
-             chks := s.chks.filter (fun p => p.1.1 ≠ n) }
+    let bound := (s.chks.filter (fun p => p.1.1 = k ∧ p.2.val.svcId = id)).map (·.1.2)
+    let s1 := bound.foldl (fun w c => chkDelete w i n c) s
+    let svcs' := tdel s1.svcs (k, id)
+    let ix := ixNode (ixNodes (ixKind (ixServices (ixChecks s1.idx i) i) i) i) n i
+    if svcs'.any (fun p => p.1.2 = id) then { s1 with svcs := svcs', idx := ixService ix id i }
+    else { s1 with svcs := svcs'
+                   ksn := s1.ksn.filter (· ≠ id)
+                   idx := imax (imax (idel ix (peered ("service." ++ id))) (peered "service_last_extinction") i)
+                            "kind_service_names.typical" i }
+
+/-- `deleteNodeTxn`: services (with their checks), remaining checks, then the node row, its
+    `node.<name>` entry and the node extinction index -/
+def nodeDelete (s : State) (i : Nat) (n : String) : State :=
+  let k := lc n
+  match tget s.nodes k with
+  | none => s
+  | some _ =>
+    let mine := (s.svcs.filter (fun p => p.1.1 = k)).map (·.1.2)
+    let s0 := { s with idx := mine.foldl (fun t id => ixKind (ixService t id i) i) s.idx }
+    let s1 := mine.foldl (fun w id => svcDelete w i n id) s0
+    let myChks := (s1.chks.filter (fun p => p.1.1 = k)).map (·.1.2)
+    let s2 := myChks.foldl (fun w c => chkDelete w i n c) s1
+    { s2 with nodes := tdel s2.nodes k
+              idx := imax (idel (ixNodes s2.idx i) (peered ("node." ++ n))) (peered "node_last_extinction") i }
 
 /-- `ensureNodeTxn`.  With a node ID: a registration already carrying that ID is the one being
     updated — if it is stored under another name this is a rename (name-clash check, then the old
     registration is deleted with its services and checks, the new row inherits its CreateIndex and
     replaces whatever was stored under the new name); an unknown ID may take over the name of a
     registration unless that one has an ID of its own and is healthy.  Without ID: by name only. -/
-def nodeSet (s : State) (i : Nat) (n : String) (v : NodeVal) : Except Err State :=
+def nodeSet (s : State) (i : Nat) (v : NodeVal) : Except Err State :=
+  let k := lc v.name
   if v.id ≠ "" then
     match nodeById s.nodes v.id with
-    | some (oldName, e) =>
-      if oldName ≠ n then
-        if nameConflict s.nodes s.chks n v.id false then .error .nodeNameConflict
-        else
-          let s' := nodeDelete s oldName
-          .ok { s' with nodes := tput s'.nodes n ⟨v, e.create, i⟩ }
-      else if e.val = v then .ok s
-      else .ok { s with nodes := tput s.nodes n ⟨v, e.create, i⟩ }
+    | some (oldKey, e) =>
+      if oldKey ≠ k then
+        if nameConflict s.nodes s.chks k v.id false then .error .nodeNameConflict
+        else .ok (nodeInsert (nodeDelete s i e.val.name) i v e.create)
+      else if sameNode e.val v then .ok s
+      else .ok (nodeInsert s i v e.create)
     | none =>
-      if nameConflict s.nodes s.chks n v.id true then .error .nodeNameConflict
-      else .ok (nodeSetByName s i n v)
-  else .ok (nodeSetByName s i n v)
+      if nameConflict s.nodes s.chks k v.id true then .error .nodeNameConflict
+      else .ok (nodeSetByName s i v)
+  else .ok (nodeSetByName s i v)
 
-/-- `ensureServiceTxn`: the node must exist (`ErrMissingNode`); same content ⇒ untouched. -/
+/-- `ensureServiceTxn`: the kind-service-name is recorded first, then the node must exist
+    (`ErrMissingNode`); same content ⇒ the row is untouched. -/
 def svcSet (s : State) (i : Nat) (n id : String) (port : Nat) : Except Err State :=
-  match tget s.nodes n with
+  let k := lc n
+  let s0 := if s.ksn.contains id then s
+            else { s with ksn := id :: s.ksn, idx := imax s.idx "kind_service_names.typical" i }
+  match tget s.nodes k with
   | none => .error .missingNode
   | some _ =>
-    match tget s.svcs (n, id) with
-    | some e => if e.val = port then .ok s else .ok { s with svcs := tput s.svcs (n, id) ⟨port, e.create, i⟩ }
-    | none => .ok { s with svcs := tput s.svcs (n, id) ⟨port, i, i⟩ }
+    let ins := fun (create : Nat) =>
+      { s0 with svcs := tput s0.svcs (k, id) ⟨port, create, i⟩
+                idx := ixNode (ixNodes (ixKind (ixService (ixServices s0.idx i) id i) i) i) n i }
+    match tget s.svcs (k, id) with
+    | some e => if e.val = port then .ok s0 else .ok (ins e.create)
+    | none => .ok (ins i)
 
-/-- `deleteServiceTxn`: cascades to the checks bound to the service. -/
-def svcDelete (s : State) (n id : String) : State :=
-  match tget s.svcs (n, id) with
-  | none => s
-  | some _ =>
-    { s with svcs := tdel s.svcs (n, id)
-             chks := s.chks.filter (fun p => ¬ (p.1.1 = n ∧ p.2.val.svcId = id)) }
-
-/-- `ensureCheckTxn`: node must exist, a service-bound check needs its service. -/
+/-- `ensureCheckTxn`: node must exist, a service-bound check needs its service; an unchanged
+    check writes nothing, a changed one also raises the entries of the service(s) it reflects on -/
 def chkSet (s : State) (i : Nat) (n id : String) (v : ChkVal) : Except Err State :=
-  match tget s.nodes n with
+  let k := lc n
+  match tget s.nodes k with
   | none => .error .missingNode
   | some _ =>
-    if v.svcId ≠ "" ∧ tget s.svcs (n, v.svcId) = none then .error .missingService
-    else match tget s.chks (n, id) with
-      | some e => if e.val = v then .ok s else .ok { s with chks := tput s.chks (n, id) ⟨v, e.create, i⟩ }
-      | none => .ok { s with chks := tput s.chks (n, id) ⟨v, i, i⟩ }
-
-def chkDelete (s : State) (n id : String) : State := { s with chks := tdel s.chks (n, id) }
+    if v.svcId ≠ "" ∧ tget s.svcs (k, v.svcId) = none then .error .missingService
+    else
+      let ix := if v.svcId ≠ "" then ixKind (ixService s.idx v.svcId i) i
+                else ixServicesOfNode s.svcs s.idx k i
+      match tget s.chks (k, id) with
+      | some e => if e.val = v then .ok s
+                  else .ok { s with chks := tput s.chks (k, id) ⟨v, e.create, i⟩, idx := ixChecks ix i }
+      | none => .ok { s with chks := tput s.chks (k, id) ⟨v, i, i⟩, idx := ixChecks ix i }
 
 /-- `ensureNodeCASTxn` as used by `txnNode` (false ⇒ "index is stale"): the comparison is made
     against the row stored under the request's NAME — never against the row of its node ID. -/
-def nodeCas (s : State) (i : Nat) (n : String) (v : NodeVal) (cidx : Nat) : Except Err State :=
-  if setCasFails (tget s.nodes n) cidx then .error .stale else nodeSet s i n v
+def nodeCas (s : State) (i : Nat) (v : NodeVal) (cidx : Nat) : Except Err State :=
+  if setCasFails (tget s.nodes (lc v.name)) cidx then .error .stale else nodeSet s i v
 
 /-- `deleteNodeCASTxn`: absent ⇒ false. -/
-def nodeDeleteCas (s : State) (n : String) (cidx : Nat) : Except Err State :=
-  match tget s.nodes n with
+def nodeDeleteCas (s : State) (i : Nat) (n : String) (cidx : Nat) : Except Err State :=
+  match tget s.nodes (lc n) with
   | none => .error .stale
-  | some e => if e.modify ≠ cidx then .error .stale else .ok (nodeDelete s n)
+  | some e => if e.modify ≠ cidx then .error .stale else .ok (nodeDelete s i n)
 
 /-- `ensureServiceCASTxn` (error valued: `errCASCompareFailed`). -/
 def svcCas (s : State) (i : Nat) (n id : String) (port cidx : Nat) : Except Err State :=
-  if setCasFails (tget s.svcs (n, id)) cidx then .error .stale else svcSet s i n id port
+  if setCasFails (tget s.svcs (lc n, id)) cidx then .error .stale else svcSet s i n id port
 
-def svcDeleteCas (s : State) (n id : String) (cidx : Nat) : Except Err State :=
-  match tget s.svcs (n, id) with
+def svcDeleteCas (s : State) (i : Nat) (n id : String) (cidx : Nat) : Except Err State :=
+  match tget s.svcs (lc n, id) with
   | none => .error .stale
-  | some e => if e.modify ≠ cidx then .error .stale else .ok (svcDelete s n id)
+  | some e => if e.modify ≠ cidx then .error .stale else .ok (svcDelete s i n id)
 
 def chkCas (s : State) (i : Nat) (n id : String) (v : ChkVal) (cidx : Nat) : Except Err State :=
-  if setCasFails (tget s.chks (n, id)) cidx then .error .stale else chkSet s i n id v
+  if setCasFails (tget s.chks (lc n, id)) cidx then .error .stale else chkSet s i n id v
 
-def chkDeleteCas (s : State) (n id : String) (cidx : Nat) : Except Err State :=
-  match tget s.chks (n, id) with
+def chkDeleteCas (s : State) (i : Nat) (n id : String) (cidx : Nat) : Except Err State :=
+  match tget s.chks (lc n, id) with
   | none => .error .stale
-  | some e => if e.modify ≠ cidx then .error .stale else .ok (chkDelete s n id)
+  | some e => if e.modify ≠ cidx then .error .stale else .ok (chkDelete s i n id)
 
 /-! ## Transactions -/
 
 inductive TOp
   | kvSet (k : String) (v : KVal) | kvDelete (k : String)
   | kvCas (k : String) (v : KVal) (cidx : Nat) | kvDeleteCas (k : String) (cidx : Nat)
-  | nodeSet (n : String) (v : NodeVal) | nodeDelete (n : String)
-  | nodeCas (n : String) (v : NodeVal) (cidx : Nat) | nodeDeleteCas (n : String) (cidx : Nat)
+  | nodeSet (v : NodeVal) | nodeDelete (n : String)
+  | nodeCas (v : NodeVal) (cidx : Nat) | nodeDeleteCas (n : String) (cidx : Nat)
   | svcSet (n id : String) (port : Nat) | svcDelete (n id : String)
   | svcCas (n id : String) (port cidx : Nat) | svcDeleteCas (n id : String) (cidx : Nat)
   | chkSet (n id : String) (v : ChkVal) | chkDelete (n id : String)
@@ -357,16 +445,17 @@ deriving DecidableEq, Repr
 
 def kvRes (s : State) (k : String) : List TRes :=
   match tget s.kvs k with | some e => [.kv k e.val.flags e.create e.modify] | none => []
-/-- `txnNode`'s `getNode()`: by node ID when the operation carries one, else by name -/
-def nodeRes (s : State) (n id : String) : List TRes :=
-  if id ≠ "" then
-    match nodeById s.nodes id with | some (nm, e) => [.node nm e.create e.modify] | none => []
+/-- `txnNode`'s `getNode()`: by node ID when the operation carries one, else by name;
+    the result carries the name as stored -/
+def nodeRes (s : State) (v : NodeVal) : List TRes :=
+  if v.id ≠ "" then
+    match nodeById s.nodes v.id with | some (_, e) => [.node e.val.name e.create e.modify] | none => []
   else
-    match tget s.nodes n with | some e => [.node n e.create e.modify] | none => []
+    match tget s.nodes (lc v.name) with | some e => [.node e.val.name e.create e.modify] | none => []
 def svcRes (s : State) (n id : String) : List TRes :=
-  match tget s.svcs (n, id) with | some e => [.svc n id e.create e.modify] | none => []
+  match tget s.svcs (lc n, id) with | some e => [.svc (lc n) id e.create e.modify] | none => []
 def chkRes (s : State) (n id : String) : List TRes :=
-  match tget s.chks (n, id) with | some e => [.chk n id e.create e.modify] | none => []
+  match tget s.chks (lc n, id) with | some e => [.chk (lc n) id e.create e.modify] | none => []
 
 /-- a boolean CAS result inside a transaction: `!ok && err == nil` ⇒ "index is stale" -/
 def ofCas (o : Out) : Except Err State :=
@@ -382,18 +471,18 @@ def tapply (w : State) (i : Nat) : TOp → Except Err (State × List TRes)
   | .kvDelete k => .ok (kvDelete w i k, [])
   | .kvCas k v c => (ofCas (kvCas w i k v c)).map fun w' => (w', kvRes w' k)
   | .kvDeleteCas k c => (ofCas (kvDeleteCas w i k c)).map fun w' => (w', [])
-  | .nodeSet n v => (nodeSet w i n v).map fun w' => (w', nodeRes w' n v.id)
-  | .nodeDelete n => .ok (nodeDelete w n, [])
-  | .nodeCas n v c => (nodeCas w i n v c).map fun w' => (w', nodeRes w' n v.id)
-  | .nodeDeleteCas n c => (nodeDeleteCas w n c).map fun w' => (w', [])
+  | .nodeSet v => (nodeSet w i v).map fun w' => (w', nodeRes w' v)
+  | .nodeDelete n => .ok (nodeDelete w i n, [])
+  | .nodeCas v c => (nodeCas w i v c).map fun w' => (w', nodeRes w' v)
+  | .nodeDeleteCas n c => (nodeDeleteCas w i n c).map fun w' => (w', [])
   | .svcSet n id p => (svcSet w i n id p).map fun w' => (w', svcRes w' n id)
-  | .svcDelete n id => .ok (svcDelete w n id, [])
+  | .svcDelete n id => .ok (svcDelete w i n id, [])
   | .svcCas n id p c => (svcCas w i n id p c).map fun w' => (w', svcRes w' n id)
-  | .svcDeleteCas n id c => (svcDeleteCas w n id c).map fun w' => (w', [])
+  | .svcDeleteCas n id c => (svcDeleteCas w i n id c).map fun w' => (w', [])
   | .chkSet n id v => (chkSet w i n id v).map fun w' => (w', chkRes w' n id)
-  | .chkDelete n id => .ok (chkDelete w n id, [])
+  | .chkDelete n id => .ok (chkDelete w i n id, [])
   | .chkCas n id v c => (chkCas w i n id v c).map fun w' => (w', chkRes w' n id)
-  | .chkDeleteCas n id c => (chkDeleteCas w n id c).map fun w' => (w', [])
+  | .chkDeleteCas n id c => (chkDeleteCas w i n id c).map fun w' => (w', [])
 
 /-- `txnDispatch`: every op runs (errors are accumulated with their op index). -/
 def txnLoop (w : State) (i : Nat) : Nat → List TOp → State × List TRes × List (Nat × Err)
@@ -425,12 +514,42 @@ def cfgStatus (old : Cell CfgVal) (statusUpdate : Bool) (kind : String) (v : Cfg
     (if statusUpdate then v.status else match old with | some e => e.val.status | none => "")
   else v.status
 
-/-- `ensureConfigEntryTxn(tx, idx, statusUpdate, conf)`: ModifyIndex is always idx, CreateIndex
-    is inherited; the `config-entries` index entry is raised to idx. -/
-def cfgEnsure (s : State) (i : Nat) (statusUpdate : Bool) (k : String × String) (v : CfgVal) : State :=
+/-- the write of `ensureConfigEntryTxn` once the entry is admitted: ModifyIndex is always idx,
+    CreateIndex is inherited; the `config-entries` index entry is raised to idx. -/
+def cfgWrite (s : State) (i : Nat) (statusUpdate : Bool) (k : String × String) (v : CfgVal) : State :=
   let old := tget s.cfgs k
-  { s with cfgs := tput s.cfgs k (stamp old i ⟨v.val, cfgStatus old statusUpdate k.1 v⟩)
+  { s with cfgs := tput s.cfgs k (stamp old i ⟨v.val, cfgStatus old statusUpdate k.1 v, v.flag⟩)
            idx := imax s.idx "config-entries" i }
+
+/-- the mesh config entry allows switching a service to permissive mutual TLS -/
+def meshAllowsPermissive (cfgs : Tab (String × String) CfgVal) : Bool :=
+  match tget cfgs ("mesh", "mesh") with
+  | some e => e.val.flag
+  | none => false
+
+/-- `validateProposedConfigEntryInGraph` for the modelled kinds: why an upsert is refused.
+    * service-defaults: *changing* to MutualTLSMode=permissive needs the mesh entry's consent
+      (`checkMutualTLSMode`);
+    * ingress gateway / terminating gateway: the name must not be taken by the other gateway kind
+      (`checkGatewayClash`);
+    * service-splitter: every service of the modelled universe speaks tcp, which "does not permit
+      advanced routing or splitting behavior" (`validateProposedConfigEntryInServiceGraph`). -/
+def cfgRefused (s : State) (k : String × String) (v : CfgVal) : Option Err :=
+  if k.1 = "service-defaults" then
+    let oldPermissive := match tget s.cfgs k with | some e => e.val.flag | none => false
+    if v.flag && !oldPermissive && !meshAllowsPermissive s.cfgs then some .cfgMtls else none
+  else if k.1 = "ingress-gateway" then
+    if tget s.cfgs ("terminating-gateway", k.2) ≠ none then some .cfgGatewayClash else none
+  else if k.1 = "terminating-gateway" then
+    if tget s.cfgs ("ingress-gateway", k.2) ≠ none then some .cfgGatewayClash else none
+  else if k.1 = "service-splitter" then some .cfgGraph
+  else none
+
+/-- `ensureConfigEntryTxn(tx, idx, statusUpdate, conf)`: a refused entry aborts the transaction -/
+def cfgEnsure (s : State) (i : Nat) (statusUpdate : Bool) (k : String × String) (v : CfgVal) : Except Err State :=
+  match cfgRefused s k v with
+  | some e => .error e
+  | none => .ok (cfgWrite s i statusUpdate k v)
 
 /-- `deleteConfigEntryTxn` -/
 def cfgDelete (s : State) (i : Nat) (k : String × String) : State :=
@@ -440,7 +559,10 @@ def cfgDelete (s : State) (i : Nat) (k : String × String) : State :=
 
 /-- `EnsureConfigEntryCAS` / `EnsureConfigEntryWithStatusCAS` -/
 def cfgCas (s : State) (i : Nat) (statusUpdate : Bool) (k : String × String) (v : CfgVal) (cidx : Nat) : Out :=
-  if setCasFails (tget s.cfgs k) cidx then ⟨s, .ok false⟩ else ⟨cfgEnsure s i statusUpdate k v, .ok true⟩
+  if setCasFails (tget s.cfgs k) cidx then ⟨s, .ok false⟩
+  else match cfgEnsure s i statusUpdate k v with
+    | .ok s' => ⟨s', .ok true⟩
+    | .error e => ⟨s, .err e⟩
 
 /-- `DeleteConfigEntryCAS` -/
 def cfgDeleteCas (s : State) (i : Nat) (k : String × String) (cidx : Nat) : Out :=
@@ -610,7 +732,7 @@ def storeApply (s : State) (i : Nat) : Cmd → Out
   | .kvCas k v c => kvCas s i k v c
   | .kvDeleteCas k c => kvDeleteCas s i k c
   | .txn ops => txn s i ops
-  | .cfgSet k v => ⟨cfgEnsure s i false k v, .unit⟩
+  | .cfgSet k v => match cfgEnsure s i false k v with | .ok s' => ⟨s', .unit⟩ | .error e => ⟨s, .err e⟩
   | .cfgDelete k => ⟨cfgDelete s i k, .unit⟩
   | .cfgCas k v c => cfgCas s i false k v c
   | .cfgStatusCas k v c => cfgCas s i true k v c
@@ -629,7 +751,7 @@ def storeApply (s : State) (i : Nat) : Cmd → Out
     except that (a) `ConfigEntryUpsert` answers `true`, and (b) `CAOpSetConfig` decides between the
     conditional and the unconditional write by `Config.ModifyIndex != 0`. -/
 def fsmApply (s : State) (i : Nat) : Cmd → Out
-  | .cfgSet k v => ⟨cfgEnsure s i false k v, .ok true⟩
+  | .cfgSet k v => match cfgEnsure s i false k v with | .ok s' => ⟨s', .ok true⟩ | .error e => ⟨s, .err e⟩
   | .caCas v c => if c ≠ 0 then caConfigCas s i v c else ⟨caSet s i v, .unit⟩
   | c => storeApply s i c
 
